@@ -295,7 +295,8 @@ def main(tier):
                 # would be an undefined-symbol fault in disguise
                 vv = rnd.randrange(4) if (kind == "loop" or cls not in ("immrange", "arity")) else rnd.randrange(2)
                 if cls == "undefsym":
-                    vv = rnd.choice([v for v in range(14) if not (v == 12 and kind == "macro")])   # (mm inside mm's own body: a recursion, another fault)
+                    # (mm inside mm's own body is a recursion, mm in front of the segment definition emits code without a segment: other faults)
+                    vv = rnd.choice([v for v in range(14) if not (v == 12 and (kind == "macro" or (kind == "top" and pos == 0)))])
                     # 4..7: the undefined name next to a `defined(..)` probe in one expression; 8..13: in
                                             # every other place a statement evaluates an expression (.align, * =, .loop, .const, macro argument, .word)
                 recs.append({"id": cid, "prog": G.tla_ready(prog), "files": {fn: G.tla_ready(p) for fn, p in files.items()},
@@ -306,6 +307,8 @@ def main(tier):
     prog, files, sites, top_limit = base_program(rnd)
     G.number_statements(prog)
     for vv in range(14):
+        if vv == 12:
+            continue        # (a macro call there emits code without a segment: another fault, reported first)
         cid += 1
         recs.append({"id": cid, "prog": G.tla_ready(prog), "files": {fn: G.tla_ready(p) for fn, p in files.items()},
                      "class": "undefsym", "v": vv, "infile": "main", "path": [], "pos": 0})
